@@ -14,11 +14,24 @@ import time
 sys.argv, where = sys.argv[:1], sys.argv[1]
 import openhtf as htf  # noqa: E402
 
+from openhtf.core import base_plugs  # noqa: E402
+
 entered, release = threading.Event(), threading.Event()
 main_ident = threading.get_ident()
+plug_events = []
 
 
-def blocker(test):
+class SlowTearDownPlug(base_plugs.BasePlug):
+
+  def tearDown(self):
+    plug_events.append('td-begin')
+    time.sleep(0.3)
+    plug_events.append('td-end')
+
+
+
+@htf.plug(pl=SlowTearDownPlug)
+def blocker(test, pl):
   entered.set()
   t0 = time.time()
   while not release.is_set() and time.time() - t0 < 10:
@@ -38,6 +51,7 @@ seen = []
 
 def cb(rec):
   seen.append(dict(oc=rec.outcome.name if rec.outcome else None, end=bool(rec.end_time_millis),
+                   plug_td=list(plug_events),
                    phases=[[p.name, p.outcome.name if p.outcome else None, bool(p.end_time_millis)] for p in rec.phases]))
 
 
